@@ -85,7 +85,13 @@ class _Walker:
                 return frozenset((p, "view") for p, _ in o)
             return frozenset((p, "view") for p, _ in o)
         if isinstance(e, ast.Subscript):
-            return frozenset((p, "view") for p, _ in self.origins(e.value, st))
+            return frozenset((p, "same" if k == "member" else "view") for p, k in self.origins(e.value, st))
+        if isinstance(e, (ast.Tuple, ast.List)):
+            # a display holds the very objects it names: iterating it (or indexing it) gives them back
+            out = frozenset()
+            for x in e.elts:
+                out |= frozenset((p, "member") for p, k in self.origins(x, st) if k in ("same", "member"))
+            return out
         if isinstance(e, ast.Starred):
             return self.origins(e.value, st)
         if isinstance(e, ast.IfExp):
@@ -101,6 +107,13 @@ class _Walker:
             ch = attr_chain(e.func)
             if ch in SAME_FUNCS and e.args:
                 return self.origins(e.args[0], st)
+            # shallow copies of a container: X.copy(), dict(X), list(X), copy.copy(X) - the rows / elements are still the
+            # argument's (a dict of dicts, a list of lists); numeric arrays copy their data, and a subscript of an array
+            # copy is written with one index tuple, which is why only the element level is tracked
+            if isinstance(e.func, ast.Attribute) and e.func.attr == "copy" and not e.args and not e.keywords:
+                return frozenset((p, "elems") for p, k in self.origins(e.func.value, st) if k in ("same", "elems"))
+            if ch in ("dict", "list", "copy.copy") and len(e.args) == 1 and not e.keywords:
+                return frozenset((p, "elems") for p, k in self.origins(e.args[0], st) if k in ("same", "elems"))
             if ch in VIEW_FUNCS and e.args:
                 out = frozenset()
                 for a in e.args:
@@ -123,6 +136,8 @@ class _Walker:
     # -- recording -----------------------------------------------------------
     def hit(self, origins, node, what, data=True, via=None):
         for p, kind in origins:
+            if kind in ("elems", "member"):
+                continue            # a shallow copy / a display: its own slots are fresh; what it HOLDS is reached through a subscript (view)
             if not data and kind != "same":
                 continue            # metadata write on a view does not reach the argument
             self.effects.append(Effect(p, node, what, via))
@@ -289,7 +304,7 @@ class _Walker:
             cur = dict(st)
             for _ in range(2):
                 inner = dict(cur)
-                self.bind(s.target, frozenset((p, "view") for p, _ in self.origins(s.iter, inner)), inner)
+                self.bind(s.target, frozenset((p, "same" if k == "member" else "view") for p, k in self.origins(s.iter, inner)), inner)
                 out = self.run_body(s.body, inner)
                 cur = self.join(cur, out)
             if s.orelse:
